@@ -8,6 +8,7 @@ S4  the translated definitions evaluated by coqc (`interval`) on the implementat
 S5  the property's clauses evaluated in exact rational arithmetic on the implementation's outputs.
 """
 import math
+import re
 
 from vlib.common import *
 
@@ -226,8 +227,20 @@ def vec_term(v):
     return f"({cq(v[0])}, {cq(v[1])}, {cq(v[2])})"
 
 
+def extra_signum():
+    """does the translated idler angle carry the factor signum(theta_s)?  (the case generator must know which sign of
+    sin(theta_i) the code under test prescribes for a negative signal angle: DESIGN 2.1, `the generator knows the branch`)"""
+    try:
+        s = open(os.path.join(COQ, "Gen", "Idler.v")).read()
+    except OSError:
+        return True
+    m = re.search(r"Definition idler_theta .*?\n\n", s, re.S)
+    return bool(m) and "(signum (theta_s / 1))" in m.group(0)
+
+
 def correspondence(ctx, cases):
     goals, meta = [], {}
+    with_sign = extra_signum()
 
     def add(o, what, goal):
         cid = f"c{o['i']}_{what}"
@@ -242,8 +255,9 @@ def correspondence(ctx, cases):
         THS, THI = cq(sig["theta"]), cq(ib["theta"])
         ths = fl(sig["theta"])
         cp = i["counter_propagation"]
-        sgn = "1" if ths >= 0 and sig["theta"] != "0x8000000000000000" else "(-1)"
-        side = f"0 <= {THS}" if sgn == "1" else f"{THS} < 0"
+        neg = not (ths >= 0 and sig["theta"] != "0x8000000000000000")
+        sgn = "(-1)" if (neg and with_sign) else "1"
+        side = f"{THS} < 0" if neg else f"0 <= {THS}"
         beta = "(-1)" if cp else "1"
         # idler polar angle, inverted form (Proofs/C03_tac.v: theta_case_sound, angle_unique)
         add(o, "theta",
